@@ -16,7 +16,7 @@ type VBool struct{ T Term }
 type VBig struct{ T Term } // mathematical integer (content of a big.Int)
 type VStr struct{ S string }
 type VPtr struct{ C *Cell } // C == nil => nil pointer
-type VElemPtr struct {     // pointer to arr[idx] with symbolic idx (scalar elements only)
+type VElemPtr struct {      // pointer to arr[idx] with symbolic idx (scalar elements only)
 	Arr *Cell
 	Off int
 	Len int
